@@ -343,6 +343,8 @@ def coerce(v, ty):
     if isinstance(ty, TRef) and ty.universal and v.ty in (TStr, TInt, TBool):
         return V(ty, box_term(v))
     if ty is TInt and v.ty is TBool: return V(TInt, z3.If(v.t, z3.IntVal(1), z3.IntVal(0)))
+    if ty is TInt and v.ty is TFlags: return V(TInt, z3.BV2Int(v.t, False))
+    if ty is TFlags and v.ty is TInt: return V(TFlags, z3.Int2BV(v.t, 64))
     if ty is TInt and isinstance(v.ty, TEnum) and v.ty.intvalued: return V(TInt, v.ty.value_term(v.t))
     if isinstance(ty, TTuple) and isinstance(v.ty, TTuple) and len(ty.items) == len(v.ty.items):
         return V(ty, [coerce(x, t) for x, t in zip(v.t, ty.items)])
